@@ -12,12 +12,16 @@ C02_parseModelM_eq, C02_memo_transparent).  One request per line:
        recogniser only: `accept` iff the first alternative of `expression` matched,
        else the capture begin of `< .* >` in the second alternative
   (ID toks (s c1 c2 …))       → (ID (a IDX BEGIN END)…)  the actions of the successful derivation with their capture
+  (ID rangestarts HEX)        → (rangestarts N o1 … oN)  GoString.rangeStarts of the bytes HEX (lowercase hex, `-` = empty string):
+       the byte offsets at which Go's `for index := range s` starts a rune (validated by harness/jph/l31_rangestarts.go;
+       this is the driver bin/check uses for the channel `peg`)
 At start-up the regenerated action bodies are compared (whitespace-normalised) with the texts
 Actions.lean was written against; if one differs every `parse` request is answered (ID (actions-changed N)).
 -/
 import JPV.Peg.ParseModel
 import JPV.Peg.MemoHash
 import JPV.Peg.ExtDriver
+import JPV.Peg.GoString
 import JPV.Dump
 import JPV.Registry
 open JPV JPV.Sexp JPV.Peg
@@ -60,6 +64,26 @@ def toks (id : Sexp) (s : String) : String :=
   | .fail => (Sexp.list [id, .atom "fail"]).toStr
   | .outOfFuel => (Sexp.list [id, .atom "fuel"]).toStr
 
+def hexVal? (c : Char) : Option Nat :=
+  if '0' ≤ c ∧ c ≤ '9' then some (c.toNat - '0'.toNat)
+  else if 'a' ≤ c ∧ c ≤ 'f' then some (c.toNat - 'a'.toNat + 10)
+  else none
+
+def hexBytes? : List Char → Option (List UInt8)
+  | [] => some []
+  | h :: l :: rest =>
+    match hexVal? h, hexVal? l, hexBytes? rest with
+    | some h, some l, some bs => some (UInt8.ofNat (16 * h + l) :: bs)
+    | _, _, _ => none
+  | _ => none
+
+def rangestarts (hex : String) : String :=
+  match hexBytes? (if hex == "-" then [] else hex.toList) with
+  | some bs =>
+    let offs := GoString.rangeStarts bs
+    (Sexp.list (.atom "rangestarts" :: ofNat offs.length :: offs.map ofNat)).toStr
+  | none => "(rangestarts bad-case)"
+
 def answer (line : String) : String :=
   match Sexp.parse line with
   | some (.list [id, .atom "parse", acc, s]) =>
@@ -77,6 +101,7 @@ def answer (line : String) : String :=
     match asString? s with
     | some s => toks id s
     | none => (Sexp.list [id, .atom "bad-case"]).toStr
+  | some (.list [_, .atom "rangestarts", .atom hex]) => rangestarts hex
   | _ => "(? bad-line)"
 
 partial def loop (h : IO.FS.Stream) (out : IO.FS.Stream) : IO Unit := do
